@@ -49,8 +49,11 @@ def execute(cid: str, tier: str, seed: int, run_index: int, recorded: list | Non
     mod = load_check(cid)
     tape = Tape(seed=derive_seed(seed, cid, run_index)) if recorded is None else Tape(recorded=recorded)
     t0 = time.perf_counter()
+    opts = dict(opts or {})
+    opts.setdefault("_seed", seed)
+    opts.setdefault("_run_index", run_index)
     try:
-        res = mod.run_one(tape, tier, opts or {})
+        res = mod.run_one(tape, tier, opts)
     except BaseException as e:  # harness failure, never a verdict
         if isinstance(e, KeyboardInterrupt):
             raise
@@ -143,7 +146,14 @@ def do_replay(path: str) -> int:
     with open(path) as f:
         body = json.load(f)
     cid, tier = body["property"], body["tier"]
-    r = execute(cid, tier, 0, -1, recorded=body["tape"], opts=body.get("opts") or {})
+    if (body.get("violation") or {}).get("batch"):
+        # a verdict over many simulated runs (statistical acceptance): the check re-executes the whole batch
+        try:
+            r = load_check(cid).replay_batch(body, tier)
+        except Exception:
+            r = {"harness_error": traceback.format_exc()}
+    else:
+        r = execute(cid, tier, 0, -1, recorded=body["tape"], opts=body.get("opts") or {})
     if "harness_error" in r:
         print("HARNESS-ERROR during replay:\n" + r["harness_error"])
         return 2
@@ -326,7 +336,7 @@ def main(argv: list[str] | None = None) -> int:
     batch_viol: list[tuple[dict, dict]] = []
     notes: dict = {}
     if hasattr(mod, "finish"):
-        extra, notes = mod.finish(results, args.tier, opts)
+        extra, notes = mod.finish(results, args.tier, {**opts, "_seed": args.seed})
         for v in extra:
             batch_viol.append(({"run_index": v.get("run_index", -1), "tape": v.get("tape", []), "scenario": v.get("scenario"), "violations": [v]}, v))
     if capped:
@@ -353,6 +363,10 @@ def main(argv: list[str] | None = None) -> int:
             if k["signature"] not in printed_known:
                 printed_known.add(k["signature"])
                 print(f"KNOWN-FINDING: property={cid} {k.get('what', sig)}")
+                if os.environ.get("EMUSIM_WRITE_KNOWN_REPLAYS"):
+                    # maintenance only: (re)creates the committed replay file of a listed finding
+                    p = write_replay(cid, args.tier, args.seed, {**r, "tape": v.get("tape_override") or r.get("tape", [])}, {x: y for x, y in v.items() if x != "tape_override"}, None, None, {**opts, **(v.get("opts_override") or {})}, subdir="known")
+                    print(f"# known-finding replay written: {p}")
             continue
         n_new += 1
         min_tape = min_res = None
